@@ -174,6 +174,69 @@ Theorem C16_history_nth :
 Proof. exact history_nth. Qed.
 Print Assumptions C16_history_nth.
 
+(* ---- local types that refer to each other ------------------------------------------------------------------ *)
+
+(* Resolve binds ALL local types of a function before it resolves any of them (one px.AddTypes for the whole list):
+   a declared local name resolves to its alias, in every local definition and in every parameter type, WHEREVER it
+   stands in the list of declarations - before or after its use. *)
+Theorem C16_local_name_visible_anywhere :
+  forall (parents : lchain) (names : list str) (n : str), In n names -> local_ref parents names n = Some (PAliasT n).
+Proof. exact local_ref_declared. Qed.
+Print Assumptions C16_local_name_visible_anywhere.
+
+(* ... and what the local loader holds under a declared name is the declared expression with every local name in it
+   resolved - those declared later and the name itself included (forward references, chains, recursion). *)
+Theorem C16_local_definition_sees_all_locals :
+  forall (parents : lchain) (decls : list (str * pty)) (n : str) (t : pty),
+    NoDup (map fst decls) -> In (n, t) decls ->
+    alias_lookup (fst (bind_locals parents decls)) n = Some (subst_with (local_ref parents (map fst decls)) t).
+Proof. exact bind_locals_entry. Qed.
+Print Assumptions C16_local_definition_sees_all_locals.
+
+(* For EVERY context, every list of local type declarations (distinct names; any definitions, referring to each other in
+   any way) and every permutation of it: the function resolves to the same dispatches (or fails alike), and every type has
+   the same instances (at every depth of the test) - so, by C16_call_is_first_match, both dispatch alike. *)
+Theorem C16_local_types_order_irrelevant :
+  forall (c : pctx) (decls decls' : list (str * pty)) (dss : list (list (bop pty N))),
+    Permutation.Permutation decls decls' -> NoDup (map fst decls) ->
+    snd (resolve_fn c (decls, dss)) = snd (resolve_fn c (decls', dss)) /\
+    (forall fuel seen t v,
+        pinst_in (fn_look c (decls, dss)) fuel seen t v = pinst_in (fn_look c (decls', dss)) fuel seen t v).
+Proof. exact local_types_order_irrelevant. Qed.
+Print Assumptions C16_local_types_order_irrelevant.
+
+(* Items = Array[Item, 1], Item = Integer[0,9] declared top-down (use before definition) and bottom-up; a chain
+   L = G, G = M, M = Enum[a,b]; mutually recursive T = Array[Variant[Integer, U]], U = Array[T,1,1] in both orders *)
+Definition ex_A : str := [65]%N.
+Definition ex_B : str := [66]%N.
+Definition ex_C : str := [67]%N.
+Definition ex_run (decls : list (str * pty)) (dss : list (list (bop pty N))) (calls : list (list pval)) : fnobs :=
+  obs_of [] (fn_look ctx0 (decls, dss)) (snd (resolve_fn ctx0 (decls, dss))) (map (fun vs => (vs, None)) calls).
+Definition ex_items := (ex_A, PArray (PRef ex_B) 1 max_int64).
+Definition ex_item := (ex_B, PInteger 0 9).
+Definition ex_tree := (ex_A, PArray (PVariant [PInteger min_int64 max_int64; PRef ex_B]) 0 max_int64).
+Definition ex_branch := (ex_B, PArray (PRef ex_A) 1 1).
+Definition ex_first_or_any : list (list (bop pty N)) := [[OParam (PRef ex_A); OFunction]; [OParam PAny; OFunction]].
+
+Example C16_forward_reference_nonvacuous :
+  map (fun decls => ex_run decls ex_first_or_any [ [VArr [VInt 1; VInt 2]]; [VArr [VInt 1; VInt 50]]; [VArr []]; [VInt 1] ])
+      [ [ex_items; ex_item]; [ex_item; ex_items] ]
+  = [ ObsCalls [RBody 0; RBody 1; RBody 1; RBody 1]; ObsCalls [RBody 0; RBody 1; RBody 1; RBody 1] ].
+Proof. vm_compute. reflexivity. Qed.
+
+Example C16_alias_chain_nonvacuous :
+  ex_run [ (ex_A, PRef ex_B); (ex_B, PRef ex_C); (ex_C, PEnum [[97]; [98]]%N) ] ex_first_or_any [ [VStr [97%N]]; [VStr [100%N]] ]
+  = ObsCalls [RBody 0; RBody 1].
+Proof. vm_compute. reflexivity. Qed.
+
+Example C16_mutual_recursion_nonvacuous :
+  map (fun decls => ex_run decls ex_first_or_any
+         [ [VArr [VInt 1; VInt 2]]; [VArr [VInt 1; VArr [VArr [VInt 2]]]]; [VArr [VInt 1; VArr [VArr [VStr [120%N]]]]];
+           [VArr [VArr [VArr [VInt 1]; VArr [VInt 2]]]] ])
+      [ [ex_tree; ex_branch]; [ex_branch; ex_tree] ]
+  = [ ObsCalls [RBody 0; RBody 0; RBody 1; RBody 1]; ObsCalls [RBody 0; RBody 0; RBody 1; RBody 1] ].
+Proof. vm_compute. reflexivity. Qed.
+
 (* ---- new ------------------------------------------------------------------------------------------------ *)
 
 (* For EVERY receiver (a type, Init[T,...], the name of a type), every constructor whatsoever (registered by
@@ -337,7 +400,7 @@ Definition ex_broken : fndecl :=
    [[OParam (PRef ex_wide); OParam (PRef ex_narrow); OParam (PInteger 9 0); OFunction]]).
 
 Example C16_history_nonvacuous :
-  map (fun r => obs_of [] r [([VInt 3], None); ([VInt 6], None); ([VInt 100], None)])
-      (snd (run_history ctx0 [ex_limits; ex_broken; ex_limits]))
+  map (fun fr => obs_of [] (fn_look ctx0 (fst fr)) (snd fr) [([VInt 3], None); ([VInt 6], None); ([VInt 100], None)])
+      (combine [ex_limits; ex_broken; ex_limits] (snd (run_history ctx0 [ex_limits; ex_broken; ex_limits])))
   = [ ObsCalls [RBody 0; RBody 1; RArgError]; ObsPanic 0 POther; ObsCalls [RBody 0; RBody 1; RArgError] ].
 Proof. vm_compute. reflexivity. Qed.
